@@ -208,7 +208,7 @@ class SimplicialComplex(Hypergraph):
         remove_node
 
         """
-        for n in nodes:
+        for n in list(nodes):  # the iterable may be a live view of this network
             if n not in self:
                 warn(f"Node {n} not in simplicial complex")
                 continue
@@ -801,7 +801,7 @@ class SimplicialComplex(Hypergraph):
 
         """
         all_ids = set(self._edge.keys())
-        for idx in ebunch:
+        for idx in list(ebunch):  # the iterable may be a live view of this network
             if idx in all_ids and idx not in self._edge.keys():
                 continue
             self.remove_simplex_id(idx)
